@@ -38,6 +38,7 @@ def build_layout(rnd, late=None, more=0, more_rnd=None):
     aw = rnd.randint(2, 6)
     al = rnd.choice([0, 0, 0, 1, 2])
     mm = MemoryMap(addr_width=aw, data_width=dw, alignment=al)
+    mm._verif_placed = placed = {}         # what add_resource() returned (the harness does not rely on listings for it)
     regs = []
     for i in range(rnd.randint(1, 6)):
         if late is not None and i == late[1]:
@@ -47,9 +48,9 @@ def build_layout(rnd, late=None, more=0, more_rnd=None):
         size = (w + dw - 1) // dw
         try:
             if rnd.random() < 0.5:
-                mm.add_resource(r, name=f"r{i}", size=size, addr=rnd.randrange(0, 1 << aw, 1 << al))
+                placed[id(r)] = mm.add_resource(r, name=f"r{i}", size=size, addr=rnd.randrange(0, 1 << aw, 1 << al))
             else:
-                mm.add_resource(r, name=f"r{i}", size=size, alignment=rnd.choice([None, None, 0, 1, 2]))
+                placed[id(r)] = mm.add_resource(r, name=f"r{i}", size=size, alignment=rnd.choice([None, None, 0, 1, 2]))
             regs.append(r)
         except ValueError:
             pass
@@ -58,7 +59,7 @@ def build_layout(rnd, late=None, more=0, more_rnd=None):
         for i in range(2):
             r = EqEl(dw, "rw")
             try:
-                mm.add_resource(r, name=f"q{i}", size=1)
+                placed[id(r)] = mm.add_resource(r, name=f"q{i}", size=1)
                 regs.append(r)
             except ValueError:
                 break
@@ -66,7 +67,7 @@ def build_layout(rnd, late=None, more=0, more_rnd=None):
         for i in range(more):                       # a few more one-chunk registers wherever there is room (own stream)
             r = El(more_rnd.choice([1, dw, max(dw - 1, 1)]), more_rnd.choice(["r", "w", "rw"]))
             try:
-                mm.add_resource(r, name=f"x{i}", size=1)
+                placed[id(r)] = mm.add_resource(r, name=f"x{i}", size=1)
                 regs.append(r)
             except ValueError:
                 break
@@ -86,12 +87,33 @@ def run_impl(case):
         probe = lib.random.Random()
         probe.setstate(rnd.getstate())
         ov_pre = build_layout(probe)[4]           # dry run: the sharing limit this case will draw (extra registers do not change it)
-        late = [lambda mm_: early.setdefault("mux", csr.Multiplexer(mm_, shadow_overlaps=ov_pre)), rnd2.randint(0, 2)]
+        pre_elab = lib.rng_for(case["seed"], case["idx"], 424).random() < 0.3
+
+        def mk_early(mm_):
+            mx = early.setdefault("mux", csr.Multiplexer(mm_, shadow_overlaps=ov_pre))
+            if pre_elab:
+                # … and it may even have been elaborated once already: the registers that follow are then either refused
+                # by the next elaboration (descriptively) or served by it
+                try:
+                    from amaranth.hdl import Fragment
+                    Fragment.get(mx, None)
+                    early["elaborated_at"] = len(mm_._verif_placed)
+                except ValueError:
+                    pass
+            return mx
+        late = [mk_early, rnd2.randint(0, 2)]
     more = rnd2.choice([4, 6, 9, 12]) if rnd2.random() < 0.06 else 0
     mm, regs, dw, aw, ov = build_layout(rnd, late, more, rnd2)
     if not regs:
         return {"skip": True}
-    layout = {id(r): (s, e) for r, _, (s, e) in mm.resources()}
+    # a look at the first entries of the map only (own random stream), BEFORE anything lists it in full
+    peeked = lib.peek_map(mm, (case["seed"], case["idx"], 50))
+    layout = dict(mm._verif_placed)
+    listed = {id(r): (s, e) for r, _, (s, e) in mm.resources()}
+    pre_fails = []
+    if listed != layout:
+        pre_fails.append(("C04" if side == "r" else "C05", f"resources() lists {sorted(listed.values())} but add_resource() placed registers at "
+                          f"{sorted(layout.values())}" + (" (after a partly consumed listing)" if peeked else ""), 0))
     regs.sort(key=lambda r: layout[id(r)])
     lines = [f"case {dw} {'-' if ov is None else ov} {'-' if ov is None else ov} {len(regs)}"]
     for r in regs:
@@ -101,11 +123,15 @@ def run_impl(case):
              "rd_snap_checked": 0, "wr_concat_checked": 0, "multi_chunk_done": 0, "refused_layouts": 0,
              "unaligned": 0, "padded": 0, "unmapped_access": 0, "registers_added_after_construction": int("mux" in early)}
     try:
+        lib.peek_map(mm, (case["seed"], case["idx"], 51))
         mux = early.get("mux") or csr.Multiplexer(mm, shadow_overlaps=ov)
+        lib.peek_map(mm, (case["seed"], case["idx"], 52), p=0.15)
         top = simutil.wrap(mux)
         from amaranth.sim import Simulator
         sim = simutil.simulator(top, case)
     except ValueError:
+        if "elaborated_at" in early and early["elaborated_at"] < len(mm._verif_placed):
+            return {"skip": True}       # registers added after a first elaboration: refused by the next one (descriptively)
         # descriptive refusal of an unbalanceable layout: the model must refuse too
         stats["refused_layouts"] = 1
         return {"lines": lines + ["end"], "obs": ["shadow refused"], "fails": [], "stats": stats,
@@ -123,7 +149,7 @@ def run_impl(case):
             stats["padded"] += 1
     N = case["ncycles"]
     mode = rnd.choice(["random", "txn", "txn"])
-    obs, fails, cyc_lines = [], [], []
+    obs, fails, cyc_lines = [], list(pre_fails), []
     rd = [r for r in regs if r.element.access.readable()]
     wr = [r for r in regs if r.element.access.writable()]
 
